@@ -134,16 +134,18 @@ def parsing_matrix_factory(marker: str, size_marker: str) -> Callable[..., Dict[
             Dictionary with symmetric matrix as a numpy array.
         """
         # Size of matrix is given by {size_marker}-block, initialize to all zeros
+        values = np.stack((data["value_0"], data["value_1"], data["value_2"]), axis=1)
         try:
             n = len(self._sinex[size_marker])
         except KeyError:
-            n = max(data["row_idx"])
+            # The largest row or column index mentioned in the block (in upper form the last rows may be omitted)
+            last_col = data["column_idx"] + np.sum(~np.isnan(values), axis=1) - 1
+            n = int(max(np.max(data["row_idx"], initial=0), np.max(last_col, initial=0)))
             log.warn(f"{size_marker!r}-block was not parsed. Guessing at size of normal equation matrix (n={n}).")
         matrix = np.zeros((n, n))
 
         # Loop through each line of values and put it in the correct place in the matrix (cannot simply reshape as
         # elements may have been omitted)
-        values = np.stack((data["value_0"], data["value_1"], data["value_2"]), axis=1)
         for row, col, vals in zip(data["row_idx"], data["column_idx"], values):
             vals = vals[~np.isnan(vals)]
             idx = slice(row - 1, row), slice(col - 1, col - 1 + len(vals))
